@@ -417,6 +417,32 @@ func oracleC19(c *Case, impl string) string {
 		prevEnd = bEx
 	}
 	// a cursor lies in the range of at most one token: the one covering that byte
+	// (as Position.Contains itself answers: the "cover=" table comes from the real method)
+	if j := strings.LastIndex(impl, " cover="); j >= 0 && len(src) > 0 {
+		cov := strings.Split(impl[j+len(" cover="):], ".")
+		if len(cov) != len(src) {
+			return fmt.Sprintf("cover table has %d entries for %d bytes", len(cov), len(src))
+		}
+		owner := make([]string, len(src))
+		for i := range owner {
+			owner[i] = "-"
+		}
+		for k, t := range toks {
+			if t.ty == "EOF" {
+				continue
+			}
+			a := off[[2]int{t.sl, t.sc}]
+			bInc := off[[2]int{t.el, t.ec}]
+			for i := a; i <= bInc && i < len(src); i++ {
+				owner[i] = strconv.Itoa(k)
+			}
+		}
+		for i := range cov {
+			if cov[i] != owner[i] {
+				return fmt.Sprintf("Position.Contains(%d,%d): tokens %s contain the cursor, the byte is covered by token %s", line[i], col[i], cov[i], owner[i])
+			}
+		}
+	}
 	for i := 0; i < len(src); i++ {
 		n := 0
 		for _, t := range toks {
